@@ -243,7 +243,24 @@ int println_with(const char* fmt, var args) {
   return pos;
 }
 
+static size_t print_to_nargs(const char* fmt) {
+  size_t n = 0;
+  while (*fmt isnt '\0') {
+    if (*fmt isnt '%') { fmt++; continue; }
+    if (*(fmt+1) is '%') { fmt += 2; continue; }
+    while (*fmt isnt '\0' and not strchr("diuoxXfFeEgGaAxcsp$", *fmt)) { fmt++; }
+    n++;
+    if (*fmt isnt '\0') { fmt++; }
+  }
+  return n;
+}
+
 int print_to_with(var out, int pos, const char* fmt, var args) {
+  
+  /* count first: nothing is written when there are too few arguments */
+  if (len(args) < print_to_nargs(fmt)) {
+    throw(FormatError, "Not enough arguments to Format String!");
+  }
   
   char* fmt_buf = malloc(strlen(fmt)+1); 
   size_t index = 0;
